@@ -181,5 +181,29 @@ fn n_mbi_getters_many_tags() {
         });
         cases += 1;
     }
+    // a type-0 tag in the MIDDLE of the region does not end the walk (only the region's end does): modules
+    // behind it are still module tags of that walk, and an exhausted module iterator stays exhausted
+    {
+        let mut body: Vec<u8> = Vec::new();
+        let mut want = Vec::new();
+        want.push(8 + body.len());
+        push_tag(&mut body, 3, 18, 0);
+        push_tag(&mut body, 0, 8, 0);
+        want.push(8 + body.len());
+        push_tag(&mut body, 3, 19, 0);
+        push_tag(&mut body, 4, 16, 0);
+        push_tag(&mut body, 0, 8, 0);
+        with_region(&body, |bi, base| {
+            let mut it = bi.module_tags();
+            let mut got = Vec::new();
+            while let Some(m) = it.next() {
+                got.push(m as *const ModuleTag as *const u8 as usize - base);
+            }
+            assert_eq!(got, want, "modules behind an inner type-0 tag belong to the walk");
+            assert!(it.next().is_none() && it.next().is_none(), "an exhausted module iterator stays exhausted");
+            assert_eq!(bi.tags().count(), 5);
+        });
+        cases += 1;
+    }
     std::println!("n_mbi_getters_many_tags: {cases} cases");
 }
